@@ -84,3 +84,12 @@ package typesystem
 //@   monitor weights
 //@     ghost heavy = false
 //@     after call (*graph.WeightedAuthorizationModelEdge).GetWeight args e, ut returning w, ok : heavy = heavy || (ok && w > 2)
+
+// ------------------------------------------------------------------ C19: a validated rewrite has no empty set operator
+// (internal/graph indexes the first child of an intersection, the list engines recurse over children: an operator
+// without operands must be rejected by validation, wherever it is nested — the function recurses through every child)
+//@ func (*TypeSystem).isUsersetRewriteValid(t, objectType, relation, rewrite) (err)
+//@   property C19 C17
+//@   option nosafety
+//@   ensures @unionHasOperands err == nil && typeIs(old(rewrite.GetUserset()), "*openfgav1.Userset_Union") ==> len(old(as(rewrite.GetUserset(), "*openfgav1.Userset_Union").Union.GetChild())) >= 1
+//@   ensures @intersectionHasOperands err == nil && typeIs(old(rewrite.GetUserset()), "*openfgav1.Userset_Intersection") ==> len(old(as(rewrite.GetUserset(), "*openfgav1.Userset_Intersection").Intersection.GetChild())) >= 1
